@@ -1,4 +1,5 @@
 import RawPanelVerif.Props.C16
+import RawPanelVerif.Lemmas.MonoCompl
 import RawPanelVerif.Model.Tile
 import RawPanelVerif.Spec.TileSpec
 /-!
@@ -17,8 +18,12 @@ mode, icons, scale, fonts, sizes, strings, integers, colours, absent sub-message
 * `colour_index_pinned_counterexample` — the pinned tree indexed the 19-entry table before testing the bound
   (panic for index colours 19..31; fixed by `fix:` 75f1773)
 
-NOT YET PROVED (validated by the correspondence on every run): `tile_inversion_ok` (inverted rendering = complement),
-`bar_monotone` (needs monotonicity of the correctly rounded double operations), the ink-based `centreOk`.
+* `tile_inversion_ok` rendering the same state inverted yields exactly the complement over the tile (clause `inversion`):
+                     the operation list does not depend on `Inverted`, and every operation maps complementary canvases to
+                     complementary canvases (Lemmas/MonoCompl.lean)
+
+NOT YET PROVED (validated by the correspondence on every run): `bar_monotone` (needs monotonicity of the correctly
+rounded double operations) and the ink-based `centreOk`.
 -/
 namespace RawPanelVerif.C18
 open RawPanelVerif RawPanelVerif.Mono RawPanelVerif.Tile RawPanelVerif.C16
@@ -170,6 +175,44 @@ theorem tile_active_ok (inp : TileIn) (inv : Bool) (w h : Nat) (shrink border : 
       unfold getPx setBoundingBox; simp
     rw [this, hblank p.1 p.2 hpx.1 hpx.2]
     rfl
+
+/-- after the black-out the two renderings (not inverted / inverted) are complementary -/
+theorem blackout_compl (w h : Nat) :
+    Compl (applyOp (invertPixels (newCanvas w h) false) (.frect 0 0 w h false))
+          (applyOp (invertPixels (newCanvas w h) true) (.frect 0 0 w h false)) := by
+  obtain ⟨wf0, g0, b0⟩ := blackout w h false
+  obtain ⟨wf1, g1, b1⟩ := blackout w h true
+  refine ⟨wf0, wf1, ?_, ?_⟩
+  · rw [g1, g0]; rfl
+  · intro X Y hX hY
+    rw [g0] at hX hY
+    rw [b0 X Y hX hY, b1 X Y hX hY]; rfl
+
+/-- **inversion**: the inverted rendering is exactly the complement of the non-inverted one over the whole tile -/
+theorem tile_inversion_ok (inp : TileIn) (inv : Bool) (w h : Nat) (shrink border : Int) :
+    Spec.Tile.inversionOk (specCase inp inv w h shrink border)
+      (getPx (renderTile inp inv w h shrink border)) (getPx (renderTile inp (!inv) w h shrink border)) = true := by
+  have key : Compl (renderTile inp false w h shrink border) (renderTile inp true w h shrink border) := by
+    unfold renderTile tileOps
+    simp only [List.foldl_cons]
+    refine foldl_compl _ ?_ _ _ (setBoundingBox_compl (blackout_compl w h) _ _ _ _)
+    intro op hop b
+    have := layoutOps_draw inp w h shrink border op hop
+    intro e; subst e; simp [Op.isDraw] at this
+  have hW : (renderTile inp false w h shrink border).geo.W = w := (tile_size_ok inp false w h shrink border).1.1
+  have hH : (renderTile inp false w h shrink border).geo.H = h := (tile_size_ok inp false w h shrink border).1.2.1
+  unfold Spec.Tile.inversionOk
+  rw [List.all_eq_true]
+  intro p hp
+  have hpx : p.1 < w ∧ p.2 < h := by
+    unfold Spec.Tile.pixels specCase at hp
+    simp only [List.mem_flatMap, List.mem_range, List.mem_map] at hp
+    obtain ⟨Y, hY, X, hX, rfl⟩ := hp
+    exact ⟨hX, hY⟩
+  have hv := key.vis p.1 p.2 (by rw [hW]; exact hpx.1) (by rw [hH]; exact hpx.2)
+  cases inv
+  · simp only [Bool.not_false]; rw [hv]; cases getPx (renderTile inp false w h shrink border) p.1 p.2 <;> rfl
+  · simp only [Bool.not_true]; rw [hv]; cases getPx (renderTile inp false w h shrink border) p.1 p.2 <;> rfl
 
 /-- the centring rule of formats 10/11: for a text box of width `sw` that fits (`0 ≤ sw ≤ aw`) the left margin
 `xOffset` and the right margin `aw - sw - xOffset` differ by at most one pixel -/
